@@ -325,3 +325,58 @@ def main(argv=None):
 
 if __name__ == "__main__":
     sys.exit(main())
+
+
+# ----------------------------------------------------------------------------------
+# minimal witnesses by greedy, deterministic shrinking with re-execution
+
+
+def reduce_failures(chk, failures, simplify, fails, cap=20000):
+    """failures: iterable of (clause, witness, expected, got).
+    simplify(witness) -> ordered list of strictly simpler witnesses (well-founded order).
+    fails(clause, witness) -> (expected, got) | None   -- re-executes the single case.
+    Every failure is shrunk to a 1-minimal witness; distinct minimal witnesses are recorded."""
+    failures = sorted(failures, key=lambda f: (f[0], len(canon_json(f[1])), canon_json(f[1])))
+    cache = {}
+
+    def cfails(clause, w):
+        k = (clause, canon_json(w))
+        if k not in cache:
+            cache[k] = fails(clause, w)
+        return cache[k]
+
+    reached = {}  # (clause, witness json) -> minimal witness json it shrinks to
+    n = 0
+    for clause, w, exp, got in failures:
+        chk.clause(clause, failed=1)
+        k0 = (clause, canon_json(w))
+        if k0 in reached:
+            chk.cov["dominated_failures"] += 1
+            continue
+        n += 1
+        if n > cap:
+            chk.witness(clause, w, exp, got)
+            chk.notes.append("shrink cap hit: unshrunk failing cases reported as they are")
+            continue
+        path = [k0]
+        cur, res = w, (exp, got)
+        changed = True
+        while changed:
+            changed = False
+            for cand in simplify(cur):
+                kc = (clause, canon_json(cand))
+                if kc in reached:  # already known to fail and where it ends
+                    cur, res, changed = json.loads(reached[kc][0]), reached[kc][1], False
+                    path.append(kc)
+                    break
+                r = cfails(clause, cand)
+                if r is not None:
+                    cur, res, changed = cand, r, True
+                    path.append(kc)
+                    break
+        final = (canon_json(cur), res)
+        for kk in path:
+            reached[kk] = final
+        if (clause, canon_json(cur)) in chk.witnesses:
+            chk.cov["dominated_failures"] += 1
+        chk.witness(clause, cur, res[0], res[1])
